@@ -25,6 +25,8 @@ structure RunState where
   paused : Bool := false
   frameNo : Nat := 0
   reacts : List (Nat × Nat × Op) := []
+  /-- `reactev`: (frame, entity, action, kind, op) — issued at the first matching delivery of that frame -/
+  reactEvs : List (Nat × Nat × Nat × EvKind × Op) := []
   posts : List Op := []
   handles : List Nat := []
   panicked : Bool := false
@@ -117,6 +119,26 @@ def doOp (s : RunState) (line : String) (o : Op) : RunState :=
 
 def addV (a b : Rat × Rat) : Rat × Rat := (a.1 + b.1, a.2 + b.2)
 
+/-- An event-keyed reaction (`reactev`) fires at the first delivery of its frame that matches it.  The model's reaction
+    scripts are keyed by the delivery index (`Reactions`), so the driver resolves the index: run the frame with the reactions
+    fixed so far, find the earliest first match among the pending ones, fix those at that index, repeat (deliveries up to an
+    index do not depend on reactions at or after it, so indices found this way are final). -/
+def resolveEvReacts (run : Reactions → Option FrameOut) :
+    Nat → Reactions → List (Nat × Nat × EvKind × Op) → Reactions
+  | 0, fixed, _ => fixed
+  | fuel + 1, fixed, pending =>
+    match run fixed with
+    | none => fixed
+    | some o =>
+      let first := fun (r : Nat × Nat × EvKind × Op) =>
+        o.deliveries.findIdx? (fun d => d.entity == r.1 && d.action == r.2.1 && d.kind == r.2.2.1)
+      match (pending.filterMap first).foldl (fun (m : Option Nat) i => match m with | none => some i | some j => some (min i j)) none with
+      | none => fixed
+      | some m =>
+        let now := pending.filter (fun r => first r == some m)
+        let later := pending.filter (fun r => first r != some m)
+        resolveEvReacts run fuel (fixed ++ now.map (fun r => (m, r.2.2.2))) later
+
 def doFrame (s : RunState) : RunState :=
   let n := s.frameNo
   let rawDelta := if n == 0 then 0 else s.dt
@@ -125,6 +147,8 @@ def doFrame (s : RunState) : RunState :=
     { keys := s.keys, mouseButtons := s.mouseButtons, motion := s.pendingMotion, wheel := s.pendingWheel,
       pads := s.pads, uiActive := s.ui.any (·.2) }
   let reacts := (s.reacts.filter (fun r => r.1 == n)).map (fun r => r.2)
+  let evs := (s.reactEvs.filter (fun r => r.1 == n)).map (fun r => r.2)
+  let reacts := resolveEvReacts (fun rs => frame s.setup s.app raw t rs s.posts 100000) (evs.length + 1) reacts evs
   let s := s.emit ("frame " ++ toString n ++ " " ++ showRat t.delta ++ " " ++ showRat s.speed ++ " "
     ++ (if s.paused then "1" else "0"))
   match frame s.setup s.app raw t reacts s.posts 100000 with
@@ -192,6 +216,7 @@ def exec (s : RunState) (line : String) : Cmd → Option RunState
   | .pause b => some { s with paused := b }
   | .inject => some s
   | .react f k o => some { s with reacts := s.reacts ++ [(f, k, o)] }
+  | .reactEv f e a kind o => some { s with reactEvs := s.reactEvs ++ [(f, e, a, kind, o)] }
   | .post o => some { s with posts := s.posts ++ [o] }
   | .frame => some s.doFrame
   | .op o => some (s.doOp line o)
